@@ -352,17 +352,24 @@ def _set_file(E, path, text=None, exists=None, durable=None):
 @external("os.open", obj=_os.open)
 def _os_open(E, args, kwargs):
     path, flags = args[0], args[1]
-    if flags != _OCFN_FLAGS or kind_of(path) != "str":
+    if not isinstance(flags, int) or kind_of(path) != "str" or not (flags & _os.O_RDWR):
         raise Unsupported("os.open(%r, %r)" % (path, flags))
+    excl, creat, trunc = flags & _os.O_EXCL, flags & _os.O_CREAT, flags & _os.O_TRUNC
     if E.branch(zstr(path) == EMPTY):
         _raise_oserr(E, _errno.ENOENT)
     if E.choose(2) == 1:
         e = Sym(E.fresh("errno", IS), "int")
-        E.assume(e.t != _errno.EEXIST)
+        E.assume(z3.And(e.t != _errno.EEXIST, e.t != _errno.ENOENT))
         _raise_oserr(E, e)
     if E.branch(z3.Select(E.ddom(_files(E)), zstr(path))):
-        _raise_oserr(E, _errno.EEXIST)
-    _set_file(E, path, text=EMPTY, exists=True, durable=EMPTY)
+        if excl and creat:
+            _raise_oserr(E, _errno.EEXIST)
+        if trunc:
+            _set_file(E, path, text=EMPTY, exists=True, durable=EMPTY)
+    else:
+        if not creat:
+            _raise_oserr(E, _errno.ENOENT)
+        _set_file(E, path, text=EMPTY, exists=True, durable=EMPTY)
     fd = Sym(E.fresh("fd", IS), "int")
     E.ghost.setdefault("c23_fds", {})[str(fd.t)] = path
     return fd
@@ -396,9 +403,10 @@ def _py_open(E, args, kwargs):
     return _new_file(E, path, mode != "r")
 
 
-REG.assume_note("C23 os.open(path, O_EXCL|O_CREAT|O_RDWR) (assumed external): creates an EMPTY file and returns a "
-                "descriptor, or raises OSError: errno EEXIST exactly when the path exists, ENOENT for the empty name, any "
-                "other errno at will with nothing changed; os.fdopen(fd, 'w+') wraps the descriptor in a writable file "
+REG.assume_note("C23 os.open(path, O_RDWR | flags) (assumed external): with O_EXCL|O_CREAT it creates an EMPTY file and returns a "
+                "descriptor, or raises OSError: errno EEXIST exactly when the path exists, ENOENT for the empty name (and for "
+                "an absent path without O_CREAT), any other errno at will with nothing changed; without O_EXCL an existing "
+                "file is opened (emptied by O_TRUNC); os.fdopen(fd, 'w+') wraps the descriptor in a writable file "
                 "object on that path and does not fail")
 REG.assume_note("C23 open(path, mode) (assumed external), mode in r / r+ / w+ / a+: returns a file object on the path "
                 "(writable unless 'r') or raises OSError with nothing changed; 'r' / 'r+' raise when the path is absent, "
